@@ -184,6 +184,8 @@ class Interp:
             ty = self.t[j][0]
             if depth == 0 and ty in stops:
                 break
+            if depth == 0 and j > self.i and ty == "NAME" and j + 1 < len(self.t) and self.t[j + 1][0] == "ASSIGN":
+                break       # a keyword argument begins (the comma before it is optional in the grammar)
             if ty in ("LBRAC", "LSQBRAC", "LBRACE"):
                 depth += 1
             elif ty in ("RBRAC", "RSQBRAC", "RBRACE"):
@@ -332,6 +334,10 @@ class Interp:
                     kwargs[key] = self.value(("COMMA",))
             else:
                 args.append(self.value(("COMMA",)))
+                # arguments : '(' (val (',' val)*)? ','? (kwarg (',' kwarg)*)? ')' - the comma between the last positional
+                # argument and the first keyword argument is optional
+                if self.peek()[0] == "NAME" and self.peek(1)[0] == "ASSIGN":
+                    continue
             if not self.accept("COMMA"):
                 break
         self.expect("RBRAC")
@@ -494,9 +500,9 @@ class Interp:
             ms.append(v)
             if not self.accept("COMMA"):
                 break
-        if opened:
-            if self.peek()[0] in ("RBRAC", "RSQBRAC"):
-                self.next()
+        # statement : ... APPLY (LBRAC|LSQBRAC)? arrayrow (RBRAC|RSQBRAC)? : either bracket may be written without the other
+        if self.peek()[0] in ("RBRAC", "RSQBRAC"):
+            self.next()
         return ms
 
     def statement(self, emit=True):
@@ -538,7 +544,8 @@ class Interp:
                 vals.append(self.value(("COMMA",)))
                 if not self.accept("COMMA"):
                     break
-            if opened:
+            # forloop : ... (LBRAC|LSQBRAC)? vallist (RBRAC|RSQBRAC)? : either bracket may be written without the other
+            if self.peek()[0] in ("RBRAC", "RSQBRAC"):
                 self.next()
             values = ("list", vals)
         # body: (NEWLINE TAB statement)+
@@ -619,17 +626,16 @@ class Interp:
                     raise Reject("loopvalue", name)
                 return int(v)
             if vt == "float" and k == "int":
-                # the same rule the other way round: an integer that no double represents exactly is not a float value
+                # an integer that no double represents exactly: the code refuses it when it is written as a literal and rounds it
+                # when it is computed (NumPy compares int64 with float64 after conversion); the property does not say which, so
+                # such values are outside the domain of the claim
                 if self.symbolic:
                     import z3
                     conv = T.to_f64(v.re)
                     if not z3.eq(conv, z3.ToReal(v.re)):
-                        exact = conv == z3.ToReal(v.re)
-                        if not self.forks.choose([(exact, True), (z3.Not(exact), False)]):
-                            raise Reject("loopvalue", name)
+                        self.dom.require(conv == z3.ToReal(v.re))
                     return T.V("float", conv)
-                if float(v) != v:
-                    raise Reject("loopvalue", name)
+                self.dom.require(float(v) == v)
                 return float(v)
             return v
         if vt == "bool":
